@@ -1,7 +1,7 @@
 """C32 MoQ wire codecs round-trip and reject malformed input safely — spec/moq/Wire.tla"""
 import vf
 
-LEVEL = "exploration"
+LEVEL = "model_checking"
 LEVEL_TEXT = ("Wire.tla specifies the length classes of the variable-length integer and the framing of namespace, parameter list, "
               "property list, the nine control messages and the subgroup stream as token layouts with the protocol limits as "
               "constants; TLC enumerates structured values (boundary value per length class, 0-2 elements per list, 32 namespace "
